@@ -1,0 +1,19 @@
+//go:build verif
+
+// Contracts for the tvc verifier (/verif). Comment-only: with the `verif` tag off this file does not exist,
+// with it on it adds no code. Syntax: /verif/DESIGN.md appendix A.
+
+package utils
+
+//@ for C14
+
+//@ func GetRouteTableID
+//@   # kernel interface indexes are positive 32-bit integers
+//@   requires 0 <= linkIndex && linkIndex <= 2147483647
+//@   arith
+//@   deterministic
+//@   modifies nothing
+//@   ensures result == 1000 + linkIndex
+
+//@ # unique per interface: the table number is an injective function of the interface index
+//@ lemma routeTableInjective: forall a int, b int :: a != b ==> 1000 + a != 1000 + b
